@@ -530,6 +530,25 @@ def special_types():
     td.fields = [Field("a", 0, U32, decl="P0"), Field("b", 1, alias(opt(BOOL)), tag=3), Field("c", 5, alias(vec(U8)))]
     td.params = [("P0", "u32")]
     out.append(finish(td))
+    # transparent newtypes around nil-capable types, used as (trailing) fields of other types:
+    # the wrapper itself is not nil, so the field is always written
+    tro = TypeDef("TranspOpt")
+    tro.transparent, tro.shape = True, "tuple"
+    tro.fields = [Field("f0", 0, opt(U8))]
+    out.append(finish(tro))
+    trs = TypeDef("TranspOptStr")
+    trs.transparent, trs.shape = True, "named"
+    trs.fields = [Field("f0", 0, opt(STRING))]
+    out.append(finish(trs))
+    for name, enc in [("UsesTranspArr", "array"), ("UsesTranspMap", "map")]:
+        td = TypeDef(name)
+        td.encoding = enc
+        td.fields = [Field("a", 0, U8), Field("b", 1, named(tro)), Field("c", 2, opt(U16)), Field("d", 3, named(trs))]
+        out.append(finish(td))
+    td = TypeDef("UsesTranspEnum")
+    td.kind = "enum"
+    td.variants = [("A", 0, "named", "map", None, [Field("x", 0, named(tro)), Field("y", 1, opt(U8))]), ("B", 1, "tuple", None, None, [Field("x", 0, U8), Field("y", 1, named(trs))])]
+    out.append(finish(td))
     # Tagged<N, T> as a field type, also around nil-capable types and in front of present fields
     td = TypeDef("TaggedTy")
     td.fields = [Field("a", 0, tagged(7, opt(U8))), Field("b", 1, U8), Field("c", 2, tagged(24, opt(STRING))), Field("d", 3, tagged(1000, U16), tag=5), Field("e", 5, opt(tagged(9, I32)))]
